@@ -42,6 +42,7 @@ EXTRA = {
     'C08': ('5/C08', 'Updaters.tla defines each updater, overrides, batches (left fold), _multi_update, merge, dict_value and unit handling; TLC checks the algebraic laws on every enumerated case and exports the expected results; each case is executed through Store.apply_update with int/float/numpy/quantity carriers, also checking that unmentioned variables and the update object are untouched.', TABLE_NOTE, TECH_TABLE),
     'C18': ('5/C18', 'Timeseries.tla defines raw data, the embedded and path timeseries and query results over value atoms that include the falsy values and quantities; TLC checks alignment / read-back / query-completeness laws on every enumerated history and exports the expected views; each history is pushed through a real RAMEmitter and get_data(query), get_data_deserialized, get_data_unitless, get_timeseries, get_path_timeseries and the *_from_data converters are compared.', TABLE_NOTE, TECH_TABLE),
     'C19': ('5/C19', 'Timeline.tla is a behavioural specification of the timeline process (events fire at the first tick whose clock reached them, exactly once, merged in time order); TLC checks on-time/exactly-once/order-freeness over every timeline (all listing orders) x timestep x run length, ties the behaviours to the exported row table (RowsAgree), and every run is executed in a real Engine (TimelineProcess wired by hand and through add_timeline) and compared row by row.', TABLE_NOTE, 'TLA+ behavioural specification + TLC model checking + replay of every TLC-computed behaviour into the implementation'),
+    'C16': ('5/C16', 'Composite.tla specifies generate-at-a-path and merge (composite or loose parts, with a path) over a heap of composite objects; TLC checks that a merge changes only its target, equals the union under the path (later entries winning) and that generated composites lie under their path; merge histories are executed on real Composite objects, every object is projected after every action and the trace is validated by CompositeTrace.tla; on top, Engine(composite=...), Engine(processes=..., ...) and Engine(store=generate_store()) are run for every embedding path and merge variant and must emit identical data (equal up to the path prefix for embedded composites), and schema overrides / MetaComposer are exercised.', 'Bounded histories (constants in the evidence); equality of the emitted data across entry points is compared by the harness.', TECH),
     'C17': ('5/C17', 'Paths.tla defines lexical normalisation, tree navigation, path_to/path_for and the dictionary-path helpers; TLC checks the path laws on every tree x start node x path (and dictionary x path) within the bound and exports the expected results; every row is executed against Store.get_path/path_to/path_for/top, normalize_path, get_in/assoc_path/assoc_in/delete_in/update_in/dict_to_paths/paths_to_dict/hierarchy_depth.', TABLE_NOTE, TECH_TABLE),
 }
 
